@@ -6,6 +6,7 @@ import (
 	"os/exec"
 	"path/filepath"
 	"runtime"
+	"sync/atomic"
 	"strings"
 	"sync"
 	"syscall"
@@ -187,6 +188,7 @@ func runC05(c *runCtx) {
 	c05ForeignPush(c)
 	c05TransientOpen(c)
 	c05Concurrent(c)
+	c05FirstAccess(c)
 	c05MemStress(c)
 	c05LateJoiner(c)
 	c05Rebuild(c)
@@ -620,7 +622,12 @@ func c05Concurrent(c *runCtx) {
 		r := c.rng.fork()
 		repo, dir := newGoGit("c05conc", false)
 		start := uint64(r.rangeInt(1, 500))
-		repo.Witness("bugs-edit", lamport.Time(start))
+		// (one run in three: nobody has touched the clock yet — every goroutine's first call finds it unloaded)
+		if rep%3 != 1 {
+			repo.Witness("bugs-edit", lamport.Time(start))
+		} else {
+			c.count("concurrent-clock-first-access")
+		}
 		G, K := r.rangeInt(2, 8), r.rangeInt(20, 120)
 		var wg sync.WaitGroup
 		var mu sync.Mutex
@@ -789,6 +796,69 @@ func c05MemStress(c *runCtx) {
 				c.violation(-1, "C05/clock-went-back", "in-memory clock under concurrent increments and witnesses: "+w, nil)
 				return
 			}
+		}
+	}
+}
+
+// c05FirstAccess: a process that has just opened the repository (no clock loaded yet, or no clock file at all)
+// and several goroutines whose first call on the clock comes at the same moment — the web UI's first requests.
+// Every time handed out is above everything handed out before and is handed out once; round after round, each
+// round a new process.
+func c05FirstAccess(c *runCtx) {
+	for rep := 0; rep < c.pick(3, 12); rep++ {
+		r := c.rng.fork()
+		repo, dir := newGoGit("c05first", false)
+		repo.Close()
+		last := uint64(0)
+		for round := 0; round < c.pick(12, 40); round++ {
+			rp, err := openGoGit(dir)
+			if err != nil {
+				c.violation(-1, "C05/cannot-reopen", "round "+fmt.Sprint(round)+": "+err.Error(), nil)
+				break
+			}
+			G := r.rangeInt(2, 8)
+			times := make([]uint64, G)
+			errs := make([]error, G)
+			var ready, start int32
+			var wg sync.WaitGroup
+			for g := 0; g < G; g++ {
+				wg.Add(1)
+				go func(g int) {
+					defer wg.Done()
+					// (spinning, so that all of them are running when they are released)
+					atomic.AddInt32(&ready, 1)
+					for atomic.LoadInt32(&start) == 0 {
+					}
+					t, err := rp.Increment("bugs-edit")
+					times[g], errs[g] = uint64(t), err
+				}(g)
+			}
+			for atomic.LoadInt32(&ready) < int32(G) {
+				runtime.Gosched()
+			}
+			atomic.StoreInt32(&start, 1)
+			wg.Wait()
+			c.count("first-access-rounds")
+			seen := map[uint64]bool{}
+			mx := last
+			for g := 0; g < G; g++ {
+				if errs[g] != nil {
+					c.violation(-1, "C05/increment-failed", fmt.Sprintf("first access by %d goroutines: %v", G, errs[g]), nil)
+					continue
+				}
+				if times[g] <= last {
+					c.violation(-1, "C05/clock-went-back", fmt.Sprintf("round %d, %d goroutines at their first call on the clock: %d handed out, not above %d handed out by an earlier process (%v)", round, G, times[g], last, times), nil)
+				}
+				if seen[times[g]] {
+					c.violation(-1, "C05/time-handed-out-twice", fmt.Sprintf("round %d, %d goroutines at their first call on the clock: the edit time %d was handed out twice (%v)", round, G, times[g], times), nil)
+				}
+				seen[times[g]] = true
+				if times[g] > mx {
+					mx = times[g]
+				}
+			}
+			last = mx
+			rp.Close()
 		}
 	}
 }
